@@ -150,6 +150,12 @@ class Roles:
             return f"{fn}({','.join(args)})"
         if isinstance(e, ast.Subscript):
             return f"{f(e.value, loc, env, d)}[{f(e.slice, loc, env, d)}]"
+        if isinstance(e, ast.Slice):
+            parts = [f(x, loc, env, d) if x is not None else ""
+                     for x in (e.lower, e.upper)]
+            if e.step is not None:
+                parts.append(f(e.step, loc, env, d))
+            return ":".join(parts)
         if isinstance(e, ast.Constant):
             return repr(e.value)
         if isinstance(e, (ast.List, ast.Tuple)):
@@ -163,12 +169,23 @@ class Roles:
         if isinstance(e, _COMPS):
             env2 = dict(env)
             conds = []
+            reps = []
+            used = {n.id for part in (
+                [e.key, e.value] if isinstance(e, ast.DictComp) else [e.elt])
+                for n in ast.walk(part) if isinstance(n, ast.Name)}
+            used |= {n.id for g in e.generators for part in [g.iter] + g.ifs
+                     for n in ast.walk(part) if isinstance(n, ast.Name)}
             for g in e.generators:
                 it = self._iter(g.iter, loc, env2, d)
-                for nm in ast.walk(g.target):
-                    if isinstance(nm, ast.Name):
-                        env2[nm.id] = f"each({it})" + self._index(
-                            g.target, nm.id)
+                tn = [nm.id for nm in ast.walk(g.target)
+                      if isinstance(nm, ast.Name)]
+                for nm in tn:
+                    env2[nm] = f"each({it})" + self._index(g.target, nm)
+                if not (set(tn) & used) and not isinstance(
+                        e, (ast.SetComp, ast.DictComp)):
+                    # a generator whose target is never read only repeats
+                    # the element: multiplicity matters for lists
+                    reps.append(it)
                 conds += [f(c, loc, env2, d) for c in g.ifs]
             if isinstance(e, ast.DictComp):
                 body = f"{f(e.key, loc, env2, d)}:{f(e.value, loc, env2, d)}"
@@ -176,7 +193,8 @@ class Roles:
                 body = f(e.elt, loc, env2, d)
             o, c = {"ListComp": "[]", "SetComp": "{}", "GeneratorExp": "()",
                     "DictComp": "{}"}[type(e).__name__]
-            tail = (" if " + " and ".join(conds)) if conds else ""
+            tail = "".join(f" times({r})" for r in reps)
+            tail += (" if " + " and ".join(conds)) if conds else ""
             return f"{o}{body} for..{tail}{c}"
         if isinstance(e, ast.UnaryOp):
             return f"{type(e.op).__name__}({f(e.operand, loc, env, d)})"
